@@ -9,6 +9,7 @@ package stack
 import (
 	"bytes"
 	"fmt"
+	"io"
 	"regexp"
 	"sort"
 	"strings"
@@ -152,7 +153,7 @@ func checkNames(s *Snapshot) (string, string) {
 	return "", ""
 }
 
-func c15Check(vals []uint64, race bool, key string) *h.Viol {
+func c15Check(vals []uint64, race bool, faulty bool, key string) *h.Viol {
 	in := c15Text(vals, race)
 	mk := func(cat, msg string) *h.Viol {
 		v := &h.Viol{Fingerprint: "C15/" + cat, Summary: msg, Key: key, Kind: "names"}
@@ -178,6 +179,23 @@ func c15Check(vals []uint64, race bool, key string) *h.Viol {
 	if cat, msg := checkNames(on.snap); cat != "" {
 		return mk(cat, msg)
 	}
+	// The same laws hold for a snapshot that is returned together with an error:
+	// a malformed goroutine after the dump, and a reader that fails after the data.
+	if !race && faulty {
+		bad := append(append([]byte{}, in...), "\ngoroutine 99 [running]:\nmain.bad(zz)\n"...)
+		for fi, rd := range []io.Reader{bytes.NewReader(bad), &scriptReader{data: in, failErr: errSentinel}, &scriptReader{data: in, failErr: errSentinel, eofWithData: true}} {
+			res := scanOnce(rd, &Opts{NameArguments: true})
+			if res.panicked != "" {
+				return mk("panic", "panic: "+firstLine(res.panicked))
+			}
+			if res.snap == nil || res.err == nil || res.err == io.EOF {
+				continue
+			}
+			if cat, msg := checkNames(res.snap); cat != "" {
+				return mk(cat+":snapshot-returned-with-error", fmt.Sprintf("fault variant %d (err=%v): %s", fi, res.err, msg))
+			}
+		}
+	}
 	// creation stacks of race reports: not walked today; names must at least be consistent there
 	return nil
 }
@@ -195,7 +213,7 @@ func TestVerifC15(t *testing.T) {
 	r := h.Start("C15")
 	defer r.Finish(func(s string) { t.Error(s) })
 	slots := r.Pick(6, 7)
-	r.Set("rule", fmt.Sprintf("all assignments of a value from {5, 512KiB, 512KiB+1, P1, P2, P3, 2^63-2, 2^63-1} to %d argument slots laid out over 3 goroutines x <=2 frames x top-level / aggregate / nested-aggregate positions (8^%d dumps) plus the same over a race report's operation stacks (8^5); parsed with naming on and off; relational labelling laws (same value same name, injective, recurring pointers named, names exactly #1..#k, non-pointers unnamed, first-goroutine pointers numbered first, ascending inside each group; off: no names and otherwise equal). non-trivial = at least two slots hold the same pointer-classified value; distinct = the assignment", slots, slots))
+	r.Set("rule", fmt.Sprintf("all assignments of a value from {5, 512KiB, 512KiB+1, P1, P2, P3, 2^63-2, 2^63-1} to %d argument slots laid out over 3 goroutines x <=2 frames x top-level / aggregate / nested-aggregate positions (8^%d dumps) plus the same over a race report's operation stacks (8^5); parsed with naming on and off; every 8th assignment also with a malformed trailing goroutine and with a reader failing after/with the data (snapshot returned together with an error); relational labelling laws (same value same name, injective, recurring pointers named, names exactly #1..#k, non-pointers unnamed, first-goroutine pointers numbered first, ascending inside each group; off: no names and otherwise equal). non-trivial = at least two slots hold the same pointer-classified value; distinct = the assignment", slots, slots))
 	r.Set("assumptions", []string{"whether a pointer seen once is named is left open, as in the statement"})
 	if rv := r.ReplayFile(); rv != nil {
 		in := rv.Input()
@@ -220,7 +238,7 @@ func TestVerifC15(t *testing.T) {
 	}
 	run := func(n int, vals []uint64, race bool) {
 		key := fmt.Sprintf("race=%v %x", race, vals)
-		v := r.Check(func() *h.Viol { return c15Check(vals, race, key) })
+		v := r.Check(func() *h.Viol { return c15Check(vals, race, n%8 == 3, key) })
 		out := "ok"
 		if v != nil {
 			out = v.Fingerprint
